@@ -150,6 +150,25 @@ def run(ctx):
     ctx.check(bool(work) and bool(g) and not still, "C18-R2", "constraint:commit-after-stop-is-noop",
               "Constraint::commit_token_inner consumes tokens only if the last result was not a stop",
               "Constraint::commit_token_inner consumes a token after a stop", site=cti.where())
+    # the sampling loop hands out a mask only after asking the parser *now* whether it has to stop: the mask computation is
+    # dominated by the `false` outcome of a fresh TokenParser::check_stop() in the same call (a remembered flag is stale as
+    # soon as the parser advanced by another route, e.g. force_tokens / a resumed run)
+    cm_sites = cmi.call_blocks(TP + "::compute_mask")
+    def fresh_stop(e):
+        """the bool produced by parser.check_stop() in this call: the call itself, or the Continue payload of `check_stop()?`"""
+        if e[0] == "call" and e[1] == TP + "::check_stop":
+            return True
+        if e[0] == "place" and isinstance(e[1][0], int) and len(e[1]) > 1:
+            base = cmi.expr_place([e[1][0]])
+            return (base[0] == "call" and base[1].endswith("Try>::branch") and base[2] and base[2][0][0] == "call" and base[2][0][1] == TP + "::check_stop")
+        return False
+    g_cs = L.guard_edges(cmi, fresh_stop, False)
+    still = L.dominated_by_cut(cmi, cm_sites, g_cs) if g_cs else cm_sites
+    ctx.check(bool(cm_sites) and bool(g_cs) and not still, "C18-R4", "constraint:mask-only-after-fresh-check_stop",
+              "Constraint::compute_mask_inner computes a mask only on the false outcome of parser.check_stop() evaluated in the same call",
+              "Constraint::compute_mask_inner decides between stop and mask without calling parser.check_stop() (e.g. from a remembered "
+              "pending_stop flag): after force_tokens() / a resumed run ending in EOS it returns an ordinary mask and accepts further tokens",
+              site=cmi.where(still[0]) if still else cmi.where())
     for fn, inner in (("compute_mask", "compute_mask_inner"), ("commit_token", "commit_token_inner")):
         b = ctx.body(CON + "::" + fn)
         ctx.check(bool(b.call_blocks(CON + "::catch_unwind")), "C18-R2", "constraint:%s-contained" % fn, "runs under Constraint::catch_unwind",
